@@ -324,22 +324,57 @@ def forward_subst(stmts: list[ast.stmt], pure_calls=(), keep: set[str] = frozens
 
 
 # ---------------------------------------------------------------------------------------
-def _loads(nodes) -> dict[str, int]:
-    out: dict[str, int] = {}
-    for st in nodes:
-        for n in ast.walk(st):
-            if isinstance(n, ast.Name) and isinstance(n.ctx, ast.Load):
-                out[n.id] = out.get(n.id, 0) + 1
-    return out
+def _loads(nodes):
+    """the statements of the whole function: the context `_escapes` looks at"""
+    return list(nodes)
 
 
-def _escapes(loop: ast.For, names, total: dict[str, int] | None) -> bool:
+def _escapes(loop: ast.For, names, root) -> bool:
     """a name bound by the loop (its target, a temporary of its body) is read outside the loop: a comprehension would not
-    leave it bound, so the loop is kept (`total` = reads per name in the whole function)"""
-    if total is None:
+    leave it bound, so the loop is kept.  Reads under another binder of the same name (a later loop's target, a comprehension
+    variable, a parameter) are that binder's, not this loop's."""
+    if root is None:
         return False
-    inside = _loads([loop])
-    return any(total.get(x, 0) > inside.get(x, 0) for x in names)
+    names = set(names)
+    found = []
+
+    def targets(t):
+        return {n.id for n in ast.walk(t) if isinstance(n, ast.Name)}
+
+    def walk(n, shadow):
+        if n is loop or found:
+            return
+        if isinstance(n, ast.Name):
+            if isinstance(n.ctx, ast.Load) and n.id in names and n.id not in shadow:
+                found.append(n)
+            return
+        if isinstance(n, ast.For):
+            walk(n.iter, shadow)
+            sh = shadow | (targets(n.target) & names)
+            for x in n.body + n.orelse:
+                walk(x, sh)
+            return
+        if isinstance(n, (ast.ListComp, ast.SetComp, ast.GeneratorExp, ast.DictComp)):
+            sh = set(shadow)
+            for g in n.generators:
+                walk(g.iter, sh)
+                sh |= targets(g.target) & names
+                for c in g.ifs:
+                    walk(c, sh)
+            for e in ([n.key, n.value] if isinstance(n, ast.DictComp) else [n.elt]):
+                walk(e, sh)
+            return
+        if isinstance(n, (ast.Lambda, ast.FunctionDef, ast.AsyncFunctionDef)):
+            a = n.args
+            sh = shadow | ({x.arg for x in a.posonlyargs + a.args + a.kwonlyargs} & names)
+            for x in (n.body if isinstance(n.body, list) else [n.body]):
+                walk(x, sh)
+            return
+        for c in ast.iter_child_nodes(n):
+            walk(c, shadow)
+    for st in root:
+        walk(st, frozenset())
+    return bool(found)
 
 
 def loops_to_comps(body: list[ast.stmt], total: dict[str, int] | None = None) -> list[ast.stmt]:
@@ -516,6 +551,45 @@ def normalise_loops(stmts: list[ast.stmt]) -> list[ast.stmt]:
                     h.body = rec(h.body)
         return loops_to_comps(block, total)
     return rec(stmts)
+
+
+def fuse_for_over_comp(stmts: list[ast.stmt], pure_calls=()) -> list[ast.stmt]:
+    """for T in [E for V in S if C]: BODY   ->   for V in S: if C: T = E; BODY
+    when the comprehension only reads (pure) and BODY neither rebinds nor writes through anything it reads: building the list
+    first and filtering on the fly then see the same values.  `break` / `continue` keep their meaning (same loop)."""
+    out = []
+    for s in stmts:
+        for fld in ("body", "orelse", "finalbody"):
+            b = getattr(s, fld, None)
+            if isinstance(b, list) and b and isinstance(b[0], ast.stmt) and not isinstance(s, (ast.FunctionDef, ast.ClassDef)):
+                setattr(s, fld, fuse_for_over_comp(b, pure_calls))
+        if isinstance(s, ast.Try):
+            for h in s.handlers:
+                h.body = fuse_for_over_comp(h.body, pure_calls)
+        it = s.iter if isinstance(s, ast.For) else None
+        if isinstance(it, (ast.ListComp, ast.GeneratorExp)) and len(it.generators) == 1 and not s.orelse and is_pure(it, pure_calls):
+            g = it.generators[0]
+            bound = {n.id for n in ast.walk(g.target) if isinstance(n, ast.Name)}
+            roots = {n.id for n in ast.walk(it) if isinstance(n, ast.Name) and isinstance(n.ctx, ast.Load)} - bound
+            tnames = {n.id for n in ast.walk(s.target) if isinstance(n, ast.Name)}
+            passes_root = any(isinstance(c, ast.Call) and not (isinstance(c.func, ast.Name) and c.func.id in PURE_FUNCS)
+                              and any(isinstance(x, ast.Name) and x.id in roots for a in list(c.args) + [k.value for k in c.keywords] for x in ast.walk(a))
+                              for st in s.body for c in ast.walk(st))
+            has_continue = any(isinstance(n, ast.Continue) for st in s.body for n in ast.walk(st))
+            if not (_assigned_names(s.body) & (roots | bound)) and not _writes_through(s.body, roots) and not passes_root \
+                    and not (tnames & bound - {n.id for n in ast.walk(it.elt) if isinstance(n, ast.Name)}) and not has_continue:
+                same = ast.dump(s.target).replace("Store()", "Load()") == ast.dump(it.elt)
+                bind = [] if same else [ast.Assign(targets=[copy.deepcopy(s.target)], value=copy.deepcopy(it.elt))]
+                inner = bind + list(s.body)
+                for c in reversed(g.ifs):
+                    inner = [ast.If(test=copy.deepcopy(c), body=inner, orelse=[])]
+                new = ast.For(target=copy.deepcopy(g.target), iter=copy.deepcopy(g.iter), body=inner, orelse=[], type_comment=None)
+                ast.copy_location(new, s)
+                ast.fix_missing_locations(new)
+                out.append(new)
+                continue
+        out.append(s)
+    return out
 
 
 # ---------------------------------------------------------------------------------------
